@@ -53,6 +53,7 @@ type c15Site struct {
 	entryT    reflect.Type
 	keyT      reflect.Type
 	keyFields []string
+	yangKeys  []string // the key fields in the order of the YANG key statement
 }
 
 func c15Sites(p *reg.Pkg) []*c15Site {
@@ -81,6 +82,7 @@ func c15Sites(p *reg.Pkg) []*c15Site {
 				s := &c15Site{pkg: p, path: sub, chain: chain, parentT: t, list: f.Name, ft: f.Type, ce: ce,
 					ordered: ordered, entryT: entryT, keyT: keyT}
 				s.keyFields = g.keyFieldNames(entryT, ce)
+				s.yangKeys = s.keyFields
 				if keyT.Kind() == reflect.Struct && len(s.keyFields) > 1 {
 					s.keyFields = nil
 					for q := 0; q < keyT.NumField(); q++ {
